@@ -88,6 +88,12 @@ class CmdScenario(wfscn.ProgScenario):
             n = sum(1 for m in env.W.msgs if m.method == 'start_task'
                     and any(i in m.kwargs.get('task_ex_id', '')
                             for i in idle))
+            # ... or being handled by a transaction that has not written
+            # yet (overlapping transactions)
+            n += sum(1 for a in env.W.acts
+                     if not a.done and a.kind == 'msg'
+                     and '.start_task' in a.desc
+                     and any(i in a.desc for i in idle))
             if n and 'resume-while-a-created-task-was-not-started-yet' \
                     not in h:
                 h.append('resume-while-a-created-task-was-not-started-yet')
